@@ -53,4 +53,5 @@ props! {
     "C11" => c11,
     "C12" => c12,
     "C13" => c13,
+    "C14" => c14,
 }
